@@ -1,6 +1,7 @@
 package parse_es
 
 import (
+	"go.uber.org/zap"
 	"github.com/ozontech/file.d/pipeline"
 	insaneJSON "github.com/ozontech/insane-json"
 
@@ -10,7 +11,11 @@ import (
 // C13: parse_es over every sequence of bulk lines and stream time-outs: a time-out event is never passed on.
 func VerifH_C13_parseES() {
 	p := &Plugin{}
-	p.Start(&Config{}, &pipeline.ActionPluginParams{PluginDefaultParams: pipeline.PluginDefaultParams{PipelineSettings: &pipeline.Settings{}}})
+	params := &pipeline.ActionPluginParams{PluginDefaultParams: pipeline.PluginDefaultParams{PipelineSettings: &pipeline.Settings{}}}
+	if !vf.Symbolic() {
+		params.Logger = zap.NewNop().Sugar()
+	}
+	p.Start(&Config{}, params)
 	docs := []string{"{\"index\":{\"_index\":\"i\"}}", "{\"create\":{}}", "{\"update\":{}}", "{\"delete\":{}}", "{\"field\":\"document\"}"}
 	busy := false
 	for i := 0; i < vf.Param("K", 3); i++ {
